@@ -2,6 +2,7 @@ package main
 
 import (
 	"fmt"
+	"os"
 	"strconv"
 	"strings"
 	"time"
@@ -66,5 +67,38 @@ func treecaseMain(args []string) {
 				fmt.Printf("  %s: %s\n", is.Sig, is.Desc)
 			}
 		}
+	}
+}
+
+func init() { register("c06tjob", c06tjobMain) }
+
+// c06tjob <k>...: debug helper, prints (and with VERIF_RUNJOB=1 runs) thorough-tier case k; prints the total first.
+func c06tjobMain(args []string) {
+	e := c06EnumBuild()
+	fmt.Println("total", e.total)
+	for _, a := range args {
+		k, _ := strconv.Atoi(a)
+		c := e.Case(k)
+		fmt.Println(k, c.Label(), len(c.Seed.Data))
+		if os.Getenv("VERIF_RUNJOB") != "" {
+			t0 := time.Now()
+			res := decodeDirect(applyMutation(c.Seed.Data, c.Mut), c.Format, c.Force)
+			fmt.Printf("  decode: %v tree=%v err=%v panic=%v\n", time.Since(t0), res.V != nil, res.Err != nil, res.Panic != nil)
+		}
+	}
+}
+
+func init() { register("mutwrite", mutwriteMain) }
+
+// mutwrite <corpus-path> <kind> <a> <b> <out>: debug helper, writes the mutated corpus file (to reproduce a case with the fq binary).
+func mutwriteMain(args []string) {
+	b, err := os.ReadFile(repoFormatDir + "/" + args[0])
+	if err != nil {
+		panic(err)
+	}
+	a1, _ := strconv.Atoi(args[2])
+	b1, _ := strconv.Atoi(args[3])
+	if err := os.WriteFile(args[4], applyMutation(b, mutation{Kind: args[1], A: a1, B: b1}), 0o644); err != nil {
+		panic(err)
 	}
 }
